@@ -523,8 +523,11 @@ def permits_come_back(ctx):
         h = q.in_handler(c)
         covers_acquire = h is not None and any(acq is x for s_ in h._parent.body for x in ast.walk(s_))
         in_finally = any(field == 'finalbody' and any(acq is x for s_ in t.body for x in ast.walk(s_)) for t, field in q.enclosing_trys(c))
-        ctx.ob(f, c, not covers_acquire and not in_finally,
-               'this release also runs when the acquire itself failed (e.g. a rejected non-blocking submit): a permit that was never taken is given back and the limit grows')
+        ctx.ob(f, c, False,
+               ('this release also runs when the acquire itself failed (e.g. a rejected non-blocking submit): a permit that was never taken is given back and the limit grows'
+                if covers_acquire or in_finally else
+                'a permit is given back only by the completion of its task (the done-callback bound to the acquired semaphore and token): a direct release can name the wrong '
+                'semaphore and runs while the task may already be queued'))
     subs = [c for c in own_calls(f.node) if (dotted(c.func) or '').endswith('_executor.submit')]
     ctx.ob(f, 'acquire precedes executor.submit', bool(subs) and g.all_dominate(g.nodes_of(acq), [n for c in subs for n in g.nodes_of(c)], g.NORMAL),
            'the task must not be handed to the pool before a permit is held')
@@ -552,6 +555,7 @@ GUARDED_FIELDS = {
     ('futures.TransferCoordinator', '_associated_futures'): 'self._associated_futures_lock',
     ('futures.TransferCoordinator', '_done_callbacks'): 'self._done_callbacks_lock',
     ('futures.TransferCoordinator', '_failure_cleanups'): 'self._failure_cleanups_lock',
+    ('processpool.TransferMonitor', '_id_count'): 'self._init_lock',
 }
 # documented unlocked accesses: (function, field) -> reason
 UNLOCKED_OK = {
@@ -559,7 +563,7 @@ UNLOCKED_OK = {
 }
 
 
-@rule('C04.h', ['C04', 'C08', 'C18'], floor=10)
+@rule('C04.h', ['C04', 'C08', 'C18', 'C19'], floor=10)
 def shared_bookkeeping_under_its_lock(ctx):
     """Every access (outside __init__) of the counters/collections that decide when a
     transfer is finalised, tracked or called back - CountCallbackInvoker._count /
